@@ -70,7 +70,8 @@ def run_valid(spec):
 FAULTS = ["duct_not_smaller_than_pitch", "pins_do_not_fit", "wire_too_thick", "wire_without_pitch", "clad_too_thick", "nonpositive_dimension",
           "unequal_outer_ducts", "inverted_axial_region", "overlapping_axial_regions", "missing_boundary_condition",
           "two_boundary_conditions", "unknown_coolant", "unknown_duct_material", "unknown_correlation",
-          "power_wrong_item_count", "power_axial_gap", "power_not_core_length", "power_negative", "power_not_a_number", "odd_duct_ftf",
+          "power_wrong_item_count", "power_axial_gap", "power_not_core_length", "power_negative", "power_not_a_number",
+          "power_component_cell_count", "odd_duct_ftf",
           "bypass_fraction_zero_with_flow_gap"]
 
 
@@ -163,6 +164,12 @@ def inject(spec, fault, mag, pick):
             if len(ap["zb"]) < 3:
                 return None
             s["_power_gap"] = (key, eps)
+        elif fault == "power_component_cell_count":
+            # one component of the assembly on a different NUMBER of axial cells than the others
+            if len(comps) < 2:
+                return None
+            mode = "merge" if (len(ap["zb"]) >= 3 and eps < 0.05) else "split"
+            s["_power_cells"] = (key, {"pins": 1, "duct": 2, "cool": 3}[comps[pick % len(comps)]], mode)
         elif fault == "power_not_core_length":
             # (the reader compares to 1e-6 m: smaller mismatches are within its stated tolerance)
             ap["zb"] = list(ap["zb"])
@@ -183,6 +190,35 @@ def inject(spec, fault, mag, pick):
     else:
         return None
     return s
+
+
+def write_with_power_cells(spec, directory):
+    """power_component_cell_count: split the last cell of one component in two, or merge its first two cells."""
+    path = build.write(spec, directory)
+    key, code, mode = spec["_power_cells"]
+    p = os.path.join(directory, "power_0.csv")
+    rows = [line.split(",") for line in open(p).read().splitlines()]
+    mine = [r for r in rows if r[0] == key and int(r[1]) == code]
+    zlo = sorted(set(float(r[2]) for r in mine))
+    out = []
+    for r in rows:
+        if not (r[0] == key and int(r[1]) == code):
+            out.append(r)
+            continue
+        lo, hi = float(r[2]), float(r[3])
+        if mode == "split" and lo == zlo[-1]:
+            zm = 0.5 * (lo + hi)
+            out.append(r[:3] + [repr(zm)] + r[4:])
+            out.append(r[:2] + [repr(zm)] + r[3:])
+        elif mode == "merge" and lo == zlo[0]:
+            hi2 = [float(x[3]) for x in mine if float(x[2]) == zlo[1]][0]
+            out.append(r[:3] + [repr(hi2)] + r[4:])
+        elif mode == "merge" and lo == zlo[1]:
+            continue
+        else:
+            out.append(r)
+    open(p, "w").write("\n".join(",".join(r) for r in out) + "\n")
+    return path
 
 
 def write_with_power_gap(spec, directory):
@@ -225,6 +261,8 @@ def run_fault(spec):
         with drive.Case(bad) as c:
             if "_power_gap" in bad:
                 c.path = write_with_power_gap(bad, c.dir)
+            elif "_power_cells" in bad:
+                c.path = write_with_power_cells(bad, c.dir)
             else:
                 c.write()
             c.read()
